@@ -13,7 +13,7 @@ from __future__ import annotations
 import ast
 
 from ..flow import fact_exprs
-from ..model import AnalysisError, FuncInfo, call_name, last_attr, names_in, unparse, walk_no_nested
+from ..model import AnalysisError, FuncInfo, call_name, dotted_name, last_attr, names_in, unparse, walk_no_nested
 from ..templates import HOLE, emits_in, eval_templates
 
 QUOTES = ("'", '"')
@@ -307,6 +307,37 @@ def rule_bare_genexp(ctx, rep):
         rep.instance("R-BARE-GENEXP", "codebase", "src/", True, detail="no paren-less GeneratorExp construction")
 
 
+def rule_parens_not_stripped(ctx, rep):
+    rep.rule(
+        "R-PARENS-NOT-STRIPPED",
+        "an expression taken from the source never has its own parentheses taken away (`<node>.with_changes(lpar=[], rpar=[])` on anything "
+        "but a node the transformer has just constructed): the parentheses may be the only thing that lets the expression span several "
+        "lines (a black-style wrapped call chain), and wherever the stripped node is placed outside brackets the file no longer parses.  "
+        "Moving them to an enclosing node is no substitute once a later step unwraps that node again",
+        min_instances=1,
+    )
+    n = 0
+    for fn in ctx.prog.live_functions():
+        if not fn.module.name.startswith(("core_codemods.", "codemodder.codemods")):
+            continue
+        r = None
+        for c in walk_no_nested(fn.node):
+            if not (isinstance(c, ast.Call) and isinstance(c.func, ast.Attribute) and c.func.attr == "with_changes"):
+                continue
+            strips = [k for k in c.keywords if k.arg in ("lpar", "rpar") and isinstance(k.value, (ast.List, ast.Tuple)) and not k.value.elts]
+            if not strips:
+                continue
+            n += 1
+            r = r or ctx.resolver(fn)
+            recv = r.expand(c.func.value) if isinstance(c.func.value, ast.Name) else c.func.value
+            fresh = isinstance(recv, ast.Call) and (dotted_name(recv.func) or "").startswith(("cst.", "libcst.")) and (last_attr(recv.func) or "")[:1].isupper()
+            rep.check("R-PARENS-NOT-STRIPPED", fn.qname, fn.loc(c), fresh, f"strip:{unparse(c.func.value)[:30]}",
+                      f"`{unparse(c)[:70]}` removes the parentheses of an expression that comes from the source: a value that spans several lines only "
+                      "because of them is emitted bare")
+    if n == 0:
+        rep.instance("R-PARENS-NOT-STRIPPED", "codebase", "src/", True, detail="no with_changes(lpar=[] / rpar=[]) on any node")
+
+
 def rule_template_parses(ctx, rep):
     rep.rule(
         "R-TEMPLATE-PARSES",
@@ -460,6 +491,7 @@ def check(ctx, rep):
     rule_nodetype(ctx, rep)
     rule_flatten_elements(ctx, rep)
     rule_bare_genexp(ctx, rep)
+    rule_parens_not_stripped(ctx, rep)
     rule_template_parses(ctx, rep)
     from .c07 import rule_no_dup_keyword
 
